@@ -270,6 +270,26 @@ func (d *Driver) pending(st *Step, b *Browser) {
 		}
 	case "junk-state":
 		q.Set("state", st.Str)
+	case "body-vs-query":
+		// the callback as a form POST whose body and query string disagree: the body carries this browser's CSRF
+		// cookie value as state (and the code), the query string a decoy state (Str) — or the other way round (Arg odd)
+		if c := b.Cookie(csrfName); c != nil {
+			body := url.Values{"state": {c.Value}, "code": {q.Get("code")}}
+			qq := url.Values{"state": {st.Str}}
+			if st.Arg%2 == 1 {
+				body, qq = url.Values{"state": {st.Str}}, url.Values{"state": {c.Value}, "code": {q.Get("code")}}
+			}
+			if st.Arg%4 >= 2 {
+				body.Set("state", q.Get("state")) // the genuine state in the body, the decoy in the query
+			}
+			u.RawQuery = qq.Encode()
+			r.URL = u.String()
+			r.Method = "POST"
+			r.Body = []byte(body.Encode())
+			r.Headers = append(r.Headers, [2]string{"Content-Type", "application/x-www-form-urlencoded"})
+			b.Navigate(r, 1)
+			return
+		}
 	case "other-browser-nonce":
 		if other != nil {
 			if ou, err := url.Parse(other.Next.URL); err == nil {
